@@ -232,3 +232,81 @@ func Harness_C08_call() {
 		}
 	}
 }
+
+// Harness_C08_memory_fields_builtins: def-use chains through a local memory cell (alloc/store/load), a struct field
+// (Field, FieldAddr+load), slice elements (IndexAddr+load) and handled builtins (min/max/append/len), each fed by a
+// symbolically chosen parameter, summarised by the real RunIntraProcedural: the parameter reaches the result.
+func Harness_C08_memory_fields_builtins() {
+	shape := verifPick("shape", 0, 6)
+	f := c08NewFn(1)
+	intT := f.intT
+	ptrInt := types.Type(types.NewPointer(intT))
+	pkg := types.NewPackage("example.com/p", "p")
+	structT := types.NewStruct([]*types.Var{types.NewField(token.NoPos, pkg, "F", intT, false), types.NewField(token.NoPos, pkg, "G", intT, false)}, nil)
+	sliceT := types.Type(types.NewSlice(intT))
+	src := verifPick("source-param", 0, 1)
+	x := f.params[src]
+	other := f.params[1-src]
+	var instrs []ssa.Instruction
+	var result ssa.Value
+	expectOther := false
+	typed := func(i ssa.Instruction, t types.Type) ssa.Value {
+		verifSetUnexported(i, "typ", t)
+		instrs = append(instrs, i)
+		return i.(ssa.Value)
+	}
+	switch shape {
+	case 0: // a = new(int); *a = x; return *a
+		a := typed(&ssa.Alloc{}, ptrInt)
+		instrs = append(instrs, &ssa.Store{Addr: a, Val: x})
+		result = typed(&ssa.UnOp{Op: token.MUL, X: a}, intT)
+	case 1: // x is a struct value: return x.F / x.G
+		verifSetUnexported(x, "typ", types.Type(structT))
+		result = typed(&ssa.Field{X: x, Field: verifPick("field", 0, 1)}, intT)
+	case 2: // x is a pointer to struct: return x.F
+		verifSetUnexported(x, "typ", types.Type(types.NewPointer(structT)))
+		fa := typed(&ssa.FieldAddr{X: x, Field: verifPick("field", 0, 1)}, ptrInt)
+		result = typed(&ssa.UnOp{Op: token.MUL, X: fa}, intT)
+	case 3: // x is a slice, other is the index: return x[other]
+		verifSetUnexported(x, "typ", sliceT)
+		ia := typed(&ssa.IndexAddr{X: x, Index: other}, ptrInt)
+		result = typed(&ssa.UnOp{Op: token.MUL, X: ia}, intT)
+		expectOther = true
+	case 4: // return max(x, other) / min(x, other)
+		name := []string{"max", "min"}[verifPick("builtin", 0, 1)]
+		b := &ssa.Builtin{}
+		verifSetUnexported(b, "name", name)
+		verifSetUnexported(b, "sig", hSig(2, 1))
+		c := &ssa.Call{}
+		c.Call.Value = b
+		c.Call.Args = []ssa.Value{x, other}
+		result = typed(c, intT)
+		expectOther = true
+	case 5: // x is a slice: return append(x, other)
+		verifSetUnexported(x, "typ", sliceT)
+		b := &ssa.Builtin{}
+		verifSetUnexported(b, "name", "append")
+		verifSetUnexported(b, "sig", hSig(2, 1))
+		c := &ssa.Call{}
+		c.Call.Value = b
+		c.Call.Args = []ssa.Value{x, other}
+		result = typed(c, sliceT)
+		expectOther = true
+	default: // store through a pointer parameter is visible to the caller: *x = other (x pointer); return nothing new
+		a := typed(&ssa.Alloc{}, ptrInt)
+		instrs = append(instrs, &ssa.Store{Addr: a, Val: x})
+		l := typed(&ssa.UnOp{Op: token.MUL, X: a}, intT)
+		result = typed(&ssa.BinOp{Op: token.ADD, X: l, Y: other}, intT)
+		expectOther = true
+	}
+	ret := &ssa.Return{Results: []ssa.Value{result}}
+	instrs = append(instrs, ret)
+	b0 := f.block(0, instrs)
+	f.fn.Blocks = []*ssa.BasicBlock{b0}
+	sm := f.summarise(verifBool("path-sensitive"))
+	verifReach("summarised")
+	f.expectEdge(sm, ret, 0, src, true)
+	if expectOther {
+		f.expectEdge(sm, ret, 0, 1-src, true)
+	}
+}
